@@ -59,7 +59,8 @@ SEL = ("selplane", "selrange", "getsub", "getregion", "pad", "resample")
 PERSIST = ("h5", "ovf", "vtk", "xarray")
 ACTION_OF = {"translate": "Translate", "scale": "Scale", "mkfield": "MkField", "neg": "Neg", "pos": "Pos", "abs": "Abs", "add": "Add",
              "mul": "Mul", "sub": "Sub", "dot": "Dot", "cross": "Cross", "norm": "Norm", "orientation": "Orientation", "integrate": "Integrate",
-             "fromfield": "FromField", "setsub": "SetSub", "mulnum": "MulNum", "comp": "Comp", "lshift": "LShift", "diff": "Diff", "mutatevalid": "MutateValid",
+             "fromfield": "FromField", "setsub": "SetSub", "q_meshclose": "QMeshClose", "q_fieldclose": "QFieldClose",
+             "q_regionin": "QRegionIn", "q_aligned": "QAligned", "mulnum": "MulNum", "comp": "Comp", "lshift": "LShift", "diff": "Diff", "mutatevalid": "MutateValid",
              "updateconst": "UpdateConst", "setarray": "SetArray", "selplane": "SelPlane", "selrange": "SelRange", "getsub": "GetSub",
              "getregion": "GetRegion", "pad": "Pad", "resample": "Resample", "h5": "H5", "ovf": "Ovf", "vtk": "Vtk", "xarray": "Xarray"}
 ALL_ACTIONS = sorted(set(ACTION_OF.values()) | {"MeshRotate90", "FieldRotate90", "SetValidArray", "SetValidNorm", "SetValidNone"})
@@ -100,6 +101,8 @@ def clause_of(aspect, c, is_result):
         if aspect in ("valid", "values", "labels", "mapping") and c["tg"] == "self":
             return "DF_PositionsKept"
         return "DF_InplaceEqualsCopy" if c["ip"] else "DF_OperandsUnchanged"
+    if op.startswith("q_"):
+        return "DF_QueryPure"
     if op == "setsub":
         return "DF_SetSub"
     if op == "integrate" and is_result:
@@ -162,7 +165,7 @@ def check_step(part, w, c, st, hist, emb, name):
     outcome, retself, ex = w.do_call(c)
     part.count()
     if outcome != c["outcome"]:
-        clause = "DF_Accepts" if c["outcome"] == "ok" else "DF_Rejects"
+        clause = "DF_Query" if c["op"].startswith("q_") else "DF_Accepts" if c["outcome"] == "ok" else "DF_Rejects"
         part.violation(f"{clause}/{opname(c)}/{w.last_cond if ex is not None else 'accepted'}",
                        "the library %s a call the model %s" % (("rejected", "accepts") if c["outcome"] == "ok" else ("accepted", "requires to be rejected")),
                        _wit(hist, emb, name, exc=repr(ex)[:300]))
@@ -187,7 +190,7 @@ def replay_behaviour(df, states, emb, part, scratch):
 
 
 # ------------------------------------------------------------------------------------------------
-_REC_END = re.compile(r'outcome \|-> "(?:ok|reject)" \]')
+_REC_END = re.compile(r'outcome \|-> "(?:ok|reject|true|false)" \]')
 
 
 def _hist_ends(block):
@@ -453,8 +456,9 @@ for _op in ALGEBRA:
 for _op in SEL:
     FAMILY[_op] = "sel"
 FAMILY.update({"diff": "diff", "setvalid": "valid", "mutatevalid": "valid", "updateconst": "update", "setarray": "update",
-               "mkfield": "update", "fromfield": "update", "integrate": "integrate", "setsub": "setsub", "h5": "h5", "ovf": "ovf", "vtk": "vtk", "xarray": "xarray"})
-FAMILY_OWNER = {"geo": {"C13"}, "algebra": {"C03"}, "sel": {"C07"}, "diff": {"C08"}, "valid": {"C08"}, "update": {"C02"}, "integrate": {"C06"}, "setsub": {"C14"},
+               "mkfield": "update", "fromfield": "update", "integrate": "integrate", "setsub": "setsub", "q_aligned": "q_aligned", "q_meshclose": "query", "q_fieldclose": "query",
+               "q_regionin": "query", "h5": "h5", "ovf": "ovf", "vtk": "vtk", "xarray": "xarray"})
+FAMILY_OWNER = {"geo": {"C13"}, "algebra": {"C03"}, "sel": {"C07"}, "diff": {"C08"}, "valid": {"C08"}, "update": {"C02"}, "integrate": {"C06"}, "setsub": {"C14"}, "q_aligned": {"C14"}, "query": {"DF"},   # allclose / `in` are beyond the twenty texts
                 "h5": {"C10"}, "ovf": {"C09"}, "vtk": {"C16"}, "xarray": {"C17"}}
 CLAUSE_OWNER = {
     "DF_RegionNormal": {"C13"}, "DF_MeshNormal": {"C13"}, "DF_FieldShapes": {"C13"}, "DF_RootsLive": {"C13"},
